@@ -36,6 +36,12 @@ where
         Self::scale_playback_hz(source, interpolator, source_hz / target_hz)
     }
 
+    /// Verification hook: the fractional-position accumulator.
+    #[cfg(rustaudio_dasp_verif)]
+    pub fn verif_interpolation_value(&self) -> f64 {
+        self.interpolation_value
+    }
+
     /// Construct a new `Converter` from the source frames and the amount by which the current
     /// ***playback*** **rate** (not sample rate) should be multiplied to reach the new playback
     /// rate.
